@@ -325,7 +325,7 @@ fn sparse_case(g: &mut Gen) -> Verdict {
             repeated += 1;
             continue;
         }
-        let shape = if mixed { g.below(5) } else { case_shape };
+        let shape = if mixed { g.below(6) } else { case_shape };
         let mut c = [[0i32; 8]; 8];
         let amp = match g.weighted(&[3, 3, 2]) {
             0 => 2047,
@@ -368,6 +368,19 @@ fn sparse_case(g: &mut Gen) -> Verdict {
                     let v = g.below(8) as usize;
                     let u = g.below(8) as usize;
                     put(g, v, u);
+                }
+            }
+            5 => {
+                // two rows (or columns) of strong coefficients, v = 0 and v = 4, equal up to small
+                // deviations: huge intermediate values, half of the output lines small
+                let rows = g.bool();
+                let n = g.range(3, 8) as usize;
+                for k in 0..n {
+                    let big = (if g.bool() { 1 } else { -1 }) * g.range(1300, 2047) as i32;
+                    let other = (if g.bool() { 1 } else { -1 }) * (big + g.range_around(-60, 60, 0) as i32);
+                    let (a, b) = if rows { ((0usize, k), (4usize, k)) } else { ((k, 0usize), (k, 4usize)) };
+                    c[a.0][a.1] = big.clamp(-2048, 2047);
+                    c[b.0][b.1] = other.clamp(-2048, 2047);
                 }
             }
             _ => {
@@ -436,7 +449,7 @@ pub fn run(ctx: &Ctx) -> i32 {
         ctx,
         reports,
         Summary {
-            rule: "annex_a_procedure: the Annex A / IEEE 1180 procedure verbatim - prescribed generator (randx*1103515245+12345), 10 000 blocks per range and sign, double-precision forward DCT rounded and clipped to 12 bits, double-precision inverse as reference - against the decoder's channel IDCT called through the verif-hooks re-export over a 0 plane and a 255 plane (which together reveal the clipped residual on -255..255); criteria peak<=1, pmse<=0.06, omse<=0.02, pme<=0.015, ome<=0.0015. zero_and_all_dc_blocks: the all-zero block in all five representations leaves planes untouched; all 4096 DC-only blocks have peak error <= 1. sparse_and_dense_blocks: tape-generated first-row, first-column, dense, few-coefficient, DC and zero blocks over -2048..2047 (one shape per case or mixed per block, a quarter of the blocks repeating an earlier block of the same call), arranged in one or several rows of blocks over planes that may crop the last block column / row, transformed over an all-0, an all-255 and a textured prediction plane: every sample within 1 of clip(prediction + double-precision residual). Non-trivial = block with >= 2 non-zero coefficients.",
+            rule: "annex_a_procedure: the Annex A / IEEE 1180 procedure verbatim - prescribed generator (randx*1103515245+12345), 10 000 blocks per range and sign, double-precision forward DCT rounded and clipped to 12 bits, double-precision inverse as reference - against the decoder's channel IDCT called through the verif-hooks re-export over a 0 plane and a 255 plane (which together reveal the clipped residual on -255..255); criteria peak<=1, pmse<=0.06, omse<=0.02, pme<=0.015, ome<=0.0015. zero_and_all_dc_blocks: the all-zero block in all five representations leaves planes untouched; all 4096 DC-only blocks have peak error <= 1. sparse_and_dense_blocks: tape-generated first-row, first-column, dense, few-coefficient, near-cancelling strong-row, DC and zero blocks over -2048..2047 (one shape per case or mixed per block, a quarter of the blocks repeating an earlier block of the same call), arranged in one or several rows of blocks over planes that may crop the last block column / row, transformed over an all-0, an all-255 and a textured prediction plane: every sample within 1 of clip(prediction + double-precision residual). Non-trivial = block with >= 2 non-zero coefficients.",
             assumptions: vec![
                 "-256 is indistinguishable from -255 through a u8 plane; the reference is clipped to -255..255 for the comparison".into(),
                 "blocks are handed to the IDCT classified (zero / DC / first row / first column / full) the way the run-length stage classifies them".into(),
